@@ -311,6 +311,7 @@ def components():
             "literal 2e6 in util.n_threads_from_array_length" + (" (AST-rescaled)" if STATE["rescaled_nanops_elems"] else " (NOT rescaled)"),
             "numba on-disk cache (disabled)",
             "print() inside groupby_lib (silenced)",
+            "statement-level fault points: sys.settrace line events of groupby_lib frames on the calling thread (suspended during numba compilation); the injected MemoryError / KeyboardInterrupt subclass is the only thing that is not the library's own",
         ],
         "not_owned": [
             "numba prange schedule inside reduce_array_pair / arr_is_null / _nb_dot (thread count only)",
